@@ -398,6 +398,9 @@ func init() {
 			if s%3 == 1 {
 				frames, ages = nil, nil
 				total := 5 + r.Intn(5)
+				if s%9 == 1 {
+					total = []int{129, 130, 200, 255}[r.Intn(4)] // re-requests that list 128 and more package numbers
+				}
 				id := ids[0]
 				var order []int
 				for no := 2; no <= total; no++ {
@@ -408,6 +411,9 @@ func init() {
 				ages = append(ages, 0)
 				for len(order) > 0 {
 					k := 1 + r.Intn(3)
+					if total > 100 && len(order) < total-2 {
+						k = 60 + r.Intn(60) // long transfers are resupplied in large pieces after the first round
+					}
 					if k > len(order) {
 						k = len(order)
 					}
